@@ -7,6 +7,7 @@
 package main
 
 import (
+	"encoding/json"
 	"fmt"
 	"os"
 	"sort"
@@ -278,4 +279,89 @@ func (g *gen) rekeyed(res *vf.Result) []Case {
 	c.Before[1].Before = nil
 	res.Count("history:same_main_key_other_bls_key")
 	return []Case{a, b, c}
+}
+
+func cloneH(h HCase) HCase {
+	b, err := json.Marshal(h)
+	if err != nil {
+		panic(err)
+	}
+	var out HCase
+	if err := json.Unmarshal(b, &out); err != nil {
+		panic(err)
+	}
+	return out
+}
+
+// forked: a reorganisation under a long-lived verifier.
+//  1. chain O: an honest header at height n, verified with the seal flag (accepted)
+//  2. fork N: the block at the stake look-back height of n is ANOTHER block whose validator set is the
+//     older one (the heaviest voter not yet entitled / offline / house / a fraction of its stake); the
+//     header at height n is the one voted by O's validators -> below the quorum on N, must be rejected
+//  3. fork N again, header proposed and voted by N's own validators (honest; accepted when N has a quorum)
+func (g *gen) forked(res *vf.Result) []HCase {
+	var a HCase
+	found := false
+	g.hplain = true
+	for try := 0; try < 40 && !found; try++ {
+		a = g.hcase(&vf.Result{Distribution: map[string]int{}})
+		if a.Kind != "header" || len(a.C.H.Val.Votes) < 2 {
+			continue
+		}
+		p := cloneH(a)
+		aged := server
+		server, _ = ucon.NewVRFServer(nil)
+		observeH(&p)
+		server = aged
+		found = p.Verdict == 0
+	}
+	g.hplain = false
+	if !found {
+		return nil
+	}
+	n := a.C.H.Number
+	stakeN := lbnum(n, a.YVers[0].StakeLB)
+	si := -1
+	for i, e := range a.Chain {
+		if e.Num == stakeN && e.VR == 0 {
+			si = i
+		}
+	}
+	if si < 0 || stakeN == 0 {
+		return nil
+	}
+	a.Comment = "history:1 chain O, honest header"
+	older := g.olderSet(a.C.LB, a.C.H.Val.Votes)
+	b := cloneH(a)
+	b.Chain[si].VR, b.Chain[si].Tag = 3, 1
+	b.Readers = append(b.Readers, ReaderS{VR: 3, LB: older})
+	b.Comment = fmt.Sprintf("history:2 fork N: another block at the stake look-back height %d with the older validator set; the header is the one voted by chain O's validators", stakeN)
+	b.Before = []HCase{cloneH(a)}
+	out := []HCase{a, b}
+	// 3. the honest header of fork N
+	c := cloneH(b)
+	c.Before = []HCase{cloneH(a)}
+	c.Chain[si].VR = 0
+	c.C.LB = older
+	buildLB(&c.C.LB)
+	total := chamberTotal(c.C.LB)
+	idx := c.C.H.Val.RoundIndex
+	votes := honestVotes(c.C.LB, total, c.C.SeedH.Seed, stepPrecommit, idx, c.C.CP.VT, true)
+	okProp := false
+	for _, v := range c.C.LB.Vals {
+		if !v.MainBad && v.Key == c.C.H.Cons.Signer && isMember(v) {
+			if j, pan := seatsOf(honestProof(c.C.H.Cons.Proof).hash, v.Stake, c.C.CP.PT, total); !pan && j > 0 {
+				c.C.H.Cons.PrioJ, c.C.H.Cons.SubUsers = j, uint32(j)
+				okProp = true
+			}
+		}
+	}
+	if okProp && len(votes) > 0 && c.C.H.Number%32768 != 0 {
+		c.C.H.Val.Votes = votes
+		c.C.H.Val.Agg = aggOf(c.C.LB, votes, c.C.H.Cons.Round, idx)
+		c.Comment = "history:3 fork N, header proposed and voted by fork N's own validators"
+		out = append(out, c)
+	}
+	res.Count("history:fork_with_another_validator_set_at_the_look_back_height")
+	return out
 }
